@@ -95,7 +95,7 @@ def _plan(draw, big):
         names = draw(st.lists(st.sampled_from(NAMES), min_size=k, max_size=k, unique=True))
         cols = []
         for nm in names:
-            kind = draw(st.sampled_from(["f", "i", "b", "s", "s", "u", "d", "t", "td", "o", "ob", "y", "f32", "i8", "u8", "tm", "ts"]))
+            kind = draw(st.sampled_from(["f", "i", "b", "s", "s", "u", "d", "t", "td", "o", "ob", "y", "f32", "i8", "u8", "tm", "ts", "ol", "tn"]))
             cols.append({"name": nm, "kind": kind, "vals": draw(_col_vals(kind, n, ctrl))})
         if n and draw(st.integers(0, 11)) == 0:
             # a RELATION between texts: name, dtype label and every cell of a column have the same number of code
@@ -115,7 +115,7 @@ def _plan(draw, big):
         plan["opts"] = {"max_rows": draw(st.sampled_from(OPT)), "max_width": draw(st.sampled_from(OPT + [30, 60])),
                         "truncate_width": draw(st.sampled_from(OPT))}
     elif cls == "vector":
-        kind = draw(st.sampled_from(["f", "f", "i", "b", "s", "s", "u", "d", "t", "td", "o", "oi", "y", "f32", "i8", "u8", "tm", "ts", "ob"]))
+        kind = draw(st.sampled_from(["f", "f", "i", "b", "s", "s", "u", "d", "t", "td", "o", "oi", "y", "f32", "i8", "u8", "tm", "ts", "ob", "ol", "tn"]))
         n = draw(st.integers(0, 30 if big else 12))
         plan["kind"] = kind
         plan["vals"] = draw(_col_vals(kind, n, ctrl))
